@@ -219,15 +219,24 @@ func (p *Prog) rejectBlockOK() (bool, []string) {
 			if len(last) != 1 || p.text(last[0]) != reason {
 				fail("rejectBlock no longer hands back the reason it was given")
 			}
-			rets := 0
-			ast.Inspect(fd.Body, func(n ast.Node) bool {
-				if _, ok := n.(*ast.ReturnStmt); ok {
-					rets++
+			// every other way out is a connection error: what the function can
+			// return is its reason or a GOAWAY-class error, nothing else
+			if f := p.ssaFunc("(*serverConn).rejectBlock"); f != nil {
+				sawReason := false
+				for _, c := range p.returnErrClasses(f, 4) {
+					switch {
+					case c == "GoAway" || c == "Nil":
+					case strings.HasPrefix(c, "Param#"):
+						sawReason = true
+					default:
+						fail("rejectBlock can return an error of class " + c + ": only its reason or a connection error may leave it")
+					}
 				}
-				return true
-			})
-			if rets != 2 {
-				fail("rejectBlock has other returns than the decoding error and the reason")
+				if !sawReason {
+					fail("rejectBlock never returns the reason it was given")
+				}
+			} else {
+				fail("rejectBlock has no SSA body")
 			}
 		}
 	}
